@@ -4,7 +4,8 @@
 From Coq Require Extraction.
 From Coq Require Import ExtrOcamlBasic.
 From Utp Require Import Base.Prelude Wire.SeqNr Rtt.Rtte.
-From Utp Require Import Rx.Rx Tx.Segments.
+From Utp Require Import Rx.Rx Tx.Segments Tx.Ring.
+From Utp Require Import Cubic.F64 Cubic.Cubic Cubic.Libm.
 
 Extraction Language OCaml.
 Extraction "model"
@@ -13,4 +14,6 @@ Extraction "model"
   rtte_default rtte_trace rtte_cfg_ok c16_ok
   RTTE_MIN_RTO RTTE_MAX_RTO CLOCK_GRANULARITY RTTE_INITIAL_RTT
   rx_build rx_trace rx_run c04_ok
-  segments_new seg_trace seg_run.
+  segments_new seg_trace seg_run
+  tx_new tx_trace tx_run c19_ok
+  cubic_new cubic_trace c15_obs_ok c15_obs_core f64_view BETA_CUBIC C_CUBIC cbrt_cr.
